@@ -8,7 +8,7 @@ CONSTANTS
   Lens <- AllLens
   Modes = {"static", "auto"}
   Chunks = {1}
-  Pools <- PoolsOne
+  Pools <- PoolsSmall
   Waits = {TRUE, FALSE}
   MinItems = {1}
   Grans = {2, 3, 4, 8}
